@@ -2276,9 +2276,16 @@ func streamLife(c *Ctx) {
 			}
 		}
 		// L3: once Receive has reported an error it keeps reporting one
-		for _, variant := range []string{"oversize", "corrupt", "bad-flags"} {
+		for _, variant := range []string{"oversize", "corrupt", "bad-flags", "oversize/status-in-headers", "corrupt/status-in-headers"} {
 			variant := variant
-			scs = append(scs, scenario{"life-receive-sticky", fmt.Sprintf("Receive after a failed Receive (%s, %s)", variant, proto), func() (string, bool) {
+			// (status-in-headers: "Grpc-Status: 0" among the response headers - the trailers-only form
+			// of success - and yet a body follows; F42)
+			inHeaders := strings.HasSuffix(variant, "/status-in-headers")
+			if inHeaders && proto == "connect" {
+				continue
+			}
+			variant = strings.TrimSuffix(variant, "/status-in-headers")
+			scs = append(scs, scenario{"life-receive-sticky", fmt.Sprintf("Receive after a failed Receive (%s, %s, Grpc-Status among the headers: %v)", variant, proto, inHeaders), func() (string, bool) {
 				var bad []byte
 				switch variant {
 				case "oversize":
@@ -2291,6 +2298,9 @@ func streamLife(c *Ctx) {
 				body := append(append(frame(0, []byte{1}), bad...), frame(0, []byte{2})...)
 				body = append(body, frame(0, []byte{3})...)
 				hc := &staticClient{status: 200, header: http.Header{"Content-Type": {ctFor(proto, "bidi", "raw")}}, body: body, trailer: http.Header{"Grpc-Status": {"0"}}}
+				if inHeaders {
+					hc.header["Grpc-Status"] = []string{"0"}
+				}
 				cl := connect.NewClient[[]byte, []byte](hc, "http://h/s/m", append(protoOpts(proto), connect.WithReadMaxBytes(100))...)
 				s := cl.CallBidiStream(context.Background())
 				_ = s.CloseRequest()
